@@ -392,6 +392,7 @@ def oracle(case, obs):
     """the property clauses directly on the observed links and deliveries"""
     out = []
     kinds = []
+    destroyed_sinks = set()
     for step, (op, o) in enumerate(zip(case["ops"], obs)):
         if op[0] == "new":
             kinds.append(op[1])
@@ -408,6 +409,16 @@ def oracle(case, obs):
                     out.append(("C15", "C15/links-inconsistent/dead-upstream", "after step %d: %d has a collected upstream" % (step, i)))
                 elif i not in links[u][2]:
                     out.append(("C15", "C15/links-inconsistent/up-without-down/%s" % kinds[i], "after step %d (%s): %d lists %d upstream but is not among its downstreams" % (step, op, i, u)))
+        # (1c) sinks stay active until destroyed: a sink that was never destroyed is alive, whether or not the program still
+        #      refers to it and whatever was connected / disconnected in the meantime
+        if op[0] == "destroy" and not o["raised"]:
+            destroyed_sinks.add(op[1])
+        if op[0] == "remit" and op[4][0] == "destroy" and o.get("edit_done") and not o.get("edit_raised"):
+            destroyed_sinks.add(op[4][1])
+        for i, (alive, ups, downs) in enumerate(links):
+            if i < len(kinds) and kinds[i] in ("sink", "rsink") and i not in destroyed_sinks and not alive:
+                out.append(("C15", "C15/sink/collected-without-destroy", "after step %d (%s): sink %d was never destroyed but has been garbage collected" % (step, op, i)))
+                return out
         # (1b) destroy detaches the node from ALL its upstream sources (also when done from inside a callback)
         dn = None
         if op[0] == "destroy" and not o["raised"]:
